@@ -95,7 +95,9 @@ def main():
         }],
         'checks': checks,
         'not_applicable': na,
-        'notes': 'See DESIGN.md. KNOWN_FINDINGS.txt lists fixed/known defects.',
+        'notes': ('See DESIGN.md (section 9 = as built). KNOWN_FINDINGS.txt: eight defects found by the checks and repaired in /repo (fixed: lines, F1-F8) '
+                  'and two C09 deviations that cannot be repaired (known: lines, K1/K2 - C09 prints KNOWN-FINDING lines and exits 0). '
+                  '/verif/seeded/ holds 80 property-breaking changes written by independent sub-agents, all caught by the check of their property.'),
     }
     with open(os.path.join(HERE, 'MANIFEST.json'), 'w') as fh:
         json.dump(m, fh, indent=1)
